@@ -149,7 +149,7 @@ def base_lines(tier):
                 key = (a.get("mnemonic"), a.get("form"), a.get("width"),
                        a.get("path"), a.get("kw"), (a.get("base") or "")[:2],
                        ("sp" if str(a.get("index", "none")).startswith("sp") else "i") if a.get("index", "none") != "none" else "",
-                       a.get("dsign"), a.get("ufit"), a.get("spelling"), a.get("one"), a.get("dk"))
+                       a.get("dsign"), a.get("ufit"), a.get("sfit"), a.get("spelling"), a.get("one"), a.get("dk"))
             if key not in seen:
                 seen[key] = c
     out = []
